@@ -113,6 +113,7 @@ func (h *inFlightRequestsHandler) onIncomingFrameReceived(f *frame.Frame) error 
 			h.removeInFlight(streamId)
 			if inFlight.managedStreamId {
 				if err := h.releaseStreamId(streamId); err != nil {
+					inFlight.close(err)
 					return err
 				}
 			}
@@ -280,7 +281,9 @@ func (r *inFlightRequest) onFrameReceived(f *frame.Frame) error {
 		}
 		return nil
 	case <-r.ctx.Done():
-		return fmt.Errorf("%v: request closed", r)
+		err := fmt.Errorf("%v: request closed", r)
+		r.close(err)
+		return err
 	default:
 		err := fmt.Errorf("%v: too many pending incoming frames: %d", r, len(r.incoming))
 		r.close(err)
